@@ -27,7 +27,7 @@ def body(c):
     if not q:
         L.mc(c, "MergeOp", "5adds", L.K(MaxAdds=5, MaxL0=3, NVK=1), INV, timeout=1200, allow_zero=("Next",))
     total, keys = 0, set()
-    plans = [("len8", 3, 8, 1, 500)] if q else [("len10", 3, 10, 2, 6000), ("len11-4adds", 4, 11, 1, 6000)]
+    plans = [("len8", 3, 8, 1, 500)] if q else [("len10", 3, 10, 2, 1200), ("len11-4adds", 4, 11, 1, 1200)]
     for name, adds, hl, reopen, cap in plans:
         cases = L.gen(c, "MergeOpGen", name, L.K(MaxAdds=adds, MaxL0=3, NVK=1, HistLen=hl, MaxReopen=reopen),
                       invariants=("Emit", "GetIsFold"), timeout=1200)
@@ -38,7 +38,7 @@ def body(c):
             L.replay(c, "cmd/sm1merge", cases, args, "merge-%s-%s" % (name, label), timeout=1500)
             total += len(cases)
         if not q:
-            sub = rnd.sample(cases, min(len(cases), 2000))
+            sub = rnd.sample(cases, min(len(cases), 400))
             L.replay(c, "cmd/sm1merge", sub, ["-nvk", "3", "-vlen", "2"], "merge-%s-nvk3" % name, timeout=1500)
             total += len(sub)
         keys |= set(short(h) for h in cases if any(s["op"] == "merge" and s["writes"] for s in h))
@@ -53,7 +53,7 @@ def body(c):
     c.cov["rule"] = ("a case = behaviour of MergeOpGen of fixed length over add/merge/flush/compact/reopen (all behaviours of that length; "
                      "sampled above the cap); Get compared after every step; non-trivial = contains a merge that writes back; "
                      "distinct = distinct step sequences")
-    c.cov["exhaustive"] = not q
+    c.cov["exhaustive"] = False   # sequences are enumerated by TLC, replays above the caps are seeded samples
     c.assumptions += ["compaction steps are L0->Lbase compactions picked by the production picker (the L0->L0 path, whose output position "
                       "in L0 is the subject of the DupPrecedence finding of the LSM family, is not driven here)",
                       "the merge function is byte concatenation (order-sensitive, so operand order and multiplicity are observable)"]
